@@ -43,7 +43,9 @@ def _replace_units(original_units, values_by_name):
     """
     q = 1
     for arg_name, exponent in original_units.items():
-        q = q * values_by_name[arg_name] ** exponent
+        # only the units of the named values are needed; their magnitudes
+        # (possibly zero, or arrays) must not take part
+        q = q * getattr(values_by_name[arg_name], "units", 1) ** exponent
 
     return getattr(q, "_units", UnitsContainer({}))
 
